@@ -10,7 +10,7 @@ from .common import call, RAISED
 CAP = {'quick': 600, 'thorough': 1500}
 
 META = {
-    'rule': ('cases: the standard context stream. Per lattice: all ordered pairs (<= 40 concepts; '
+    'rule': ('cases: the standard context stream and one Boolean lattice of 16 384 concepts (thorough: 32 768; bounds by scanning for the upper/lower bounds). Per lattice: all ordered pairs (<= 40 concepts; '
              '400 sampled pairs beyond) through Concept.join/meet and the | and & operators, and '
              'sampled multisets of size 0-6 (repeats, comparable members; list and generator '
              'form) through Lattice.join/meet. Oracle: the result *is* the member that the shadow '
@@ -225,6 +225,7 @@ def setup(concepts, spec):
 
 
 def cases(tier, seed, spec):
+    yield from gen.biglat(tier, sizes=(15,), quick_sizes=(14,))
     yield from gen.ctx_stream(tier, seed)
 
 
@@ -238,6 +239,9 @@ def run_case(concepts, case, spec):
         return
     sh = attach.shadow_of(ctx)
     cap = CAP[spec['tier']]
+    if case['fam'].startswith('BIGLAT'):
+        sh.cap_override = 70000
+        COL.count('biglat_cases')
     sl = sh.lattice(cap)
     lat = common.get_lattice(ctx)
     if lat is RAISED:
